@@ -4,6 +4,7 @@ package c06
 import (
 	"fmt"
 	"image"
+	"image/color"
 	"math"
 	"testing"
 
@@ -46,6 +47,9 @@ type Case struct {
 	// all coordinates moved by this many whole units (the same picture in
 	// pixel space, another coordinate system).
 	Earlier [2]int `json:"earlier_shift,omitempty"`
+	// EarlierHidden (with Earlier): the earlier use also had a relative arc in a path that was not
+	// drawn at all (transparent paint).
+	EarlierHidden bool `json:"earlier_hidden,omitempty"`
 	// PixelCircle: the radii are in exactly the inverse ratio of the two pixel scales.
 	PixelCircle bool `json:"pixel_circle,omitempty"`
 	// ViaBytes: the arc reaches the Renderer through decode.Decode, from a hand-assembled stream
@@ -156,6 +160,14 @@ func checkArc(c Case) error {
 		}
 		z.SetRasterizer(rr, rect)
 		z.Reset(gen.VB([4]float32{vb[0] + dx, vb[1] + dy, vb[2] + dx, vb[3] + dy}), ivg.DefaultPalette)
+		if c.EarlierHidden {
+			// ... in a path that is not drawn (transparent paint), and in the relative form
+			z.SetCReg(0, false, ivg.RGBAColor(color.RGBA{}))
+			z.StartPath(0, ex+dx, ey+dy)
+			z.RelArcTo(float32(c.RX), float32(c.RY), float32(c.Rot), c.LargeArc, !c.Sweep, float32(c.Start[0])-ex, float32(c.Start[1])-ey)
+			z.RelLineTo(1, 1)
+			z.ClosePathEndPath()
+		}
 		z.StartPath(0, ex+dx, ey+dy)
 		z.AbsArcTo(float32(c.RX), float32(c.RY), float32(c.Rot), c.LargeArc, !c.Sweep, float32(c.Start[0])+dx, float32(c.Start[1])+dy)
 		if n := len(rr.Calls); n > 0 && rr.Calls[n-1].K == rast.CubeTo {
@@ -583,6 +595,7 @@ func TestArcs(t *testing.T) {
 		}
 		if rapid.IntRange(0, 3).Draw(t, "earlier") == 0 {
 			c.Earlier = [2]int{rapid.IntRange(-40, 40).Draw(t, "edx"), rapid.IntRange(-40, 40).Draw(t, "edy")}
+			c.EarlierHidden = rapid.Bool().Draw(t, "ehidden")
 		}
 		if rapid.IntRange(0, 4).Draw(t, "viabytes") == 0 {
 			c.ViaBytes = true
